@@ -115,6 +115,10 @@ func (n *CocagoParser) Visitor(f *ast.File, fset *token.FileSet, fileName string
 			currentStruct = core_domain.CodeDataStruct{}
 			currentStruct.NodeName = x.Name.Name
 			currentStruct.Package = currentFile.PackageName
+			if declared, ok := dsMap[currentStruct.NodeName]; ok {
+				// methods written before the type declaration
+				currentStruct.Functions = declared.Functions
+			}
 			//currentStruct.FilePath = BuildImportName(fileName)
 			newStruct := currentStruct
 			dsMap[currentStruct.NodeName] = &newStruct
@@ -124,6 +128,10 @@ func (n *CocagoParser) Visitor(f *ast.File, fset *token.FileSet, fileName string
 			funcType = "FuncDecl"
 			currentFunc, recv := AddFunctionDecl(x, &currentFile)
 			if recv != "" {
+				if dsMap[recv] == nil {
+					// the receiver type is declared further down, or in another file of the package
+					dsMap[recv] = &core_domain.CodeDataStruct{NodeName: recv, Package: currentFile.PackageName}
+				}
 				dsMap[recv].Functions = append(dsMap[recv].Functions, *currentFunc)
 			}
 		case *ast.FuncType:
